@@ -6,9 +6,9 @@ import json, glob, os
 ENUM = ("ATOM.a", "ATOM", "OVF", "PRE", "LIVE.a", "LIVE", "SURFACE", "TYPE", "UNW", "CELL.d", "CELL", "STICKY", "ORD.iii", "ORD",
         "LEAK.prim", "OWN.a", "OWN", "DONE-EVID", "DONE-SET")
 # rules that enumerate a tolerated or dangerous construct (adaptor methods left at the trait default, takes of the
-# storage, raw accesses to the cell, unwinding sites in held regions): fewer of them is never a loss, and CELL.d / UNW
+# storage, raw accesses to the cell, unwinding sites in held regions, debug_assert! sites): fewer of them is never a loss, and CELL.d / UNW
 # have an anchor obligation of their own ("no site found")
-NO_FLOOR = ("FWD.cover", "OWN.f", "CELL.d", "UNW")
+NO_FLOOR = ("FWD.cover", "OWN.f", "CELL.d", "UNW", "PRE.dbg")
 out = {}
 for f in sorted(glob.glob("/verif/evidence/C*.json")):
     d = json.load(open(f))
